@@ -4,6 +4,7 @@ import (
 	"reflect"
 	"runtime"
 	"sync"
+	"time"
 )
 
 // Finalizers. runtime.SetFinalizer in instrumented code is redirected here: the
@@ -73,8 +74,14 @@ func ForceGC() {
 		return
 	}
 	last, quiet := finPending(), 0
+	multi := runtime.GOMAXPROCS(0) > 1
 	for i := 0; i < 400 && quiet < 40; i++ {
 		runtime.Gosched()
+		if multi {
+			// (determinism self-test only) the runtime's finalizer goroutine works
+			// on another P: give it real time, yielding does not wait for it
+			time.Sleep(100 * time.Microsecond)
+		}
 		if n := finPending(); n != last {
 			last, quiet = n, 0
 		} else {
